@@ -198,3 +198,24 @@ func (g *GCM) SolveNonce(n int, j0 [16]byte, fill []byte) []byte {
 	copy(nonce[:16], n1.Bytes())
 	return nonce
 }
+
+// SealZeroPrefixedAAD is Seal for additional data consisting of `zeros` zero bytes (a multiple of
+// 16) followed by tail, without touching the zero bytes: absorbing zero blocks into an all-zero
+// GHASH state leaves it zero, so only the length block knows about them.
+func (g *GCM) SealZeroPrefixedAAD(nonce, pt []byte, zeros int, tail []byte, tagSize int) []byte {
+	if zeros%16 != 0 {
+		panic("ref: zero prefix must be a multiple of 16")
+	}
+	j0 := g.J0(nonce)
+	ct := g.ctr(j0, pt)
+	y := g.ghash(FE{}, tail)
+	y = g.ghash(y, ct)
+	y = y.Xor(lenBlock(uint64(zeros)+uint64(len(tail)), uint64(len(ct)))).Mul(g.H)
+	var ek [16]byte
+	g.blk.Encrypt(ek[:], j0[:])
+	t := y.Bytes()
+	for i := range t {
+		t[i] ^= ek[i]
+	}
+	return append(ct, t[:tagSize]...)
+}
